@@ -236,11 +236,15 @@ def run(ctx) -> None:
             bases = []
             for a_ in c_.args[:2]:
                 a_ = a_.left if isinstance(a_, ast.BinOp) and isinstance(a_.op, ast.Add) else a_
-                a_ = FS.resolve(a_, FS.du.node_of_expr(c_)) if isinstance(a_, ast.Name) and a_.id not in FS._mutated else a_
+                if isinstance(a_, ast.Name) and a_.id not in FS._mutated:
+                    d1_ = FS.du.single_def(a_.id, FS.du.node_of_expr(c_))      # one step only: `tmp = list + [new]`
+                    a_ = d1_.value if d1_ is not None and d1_.kind == "assign" and d1_.value is not None else a_
                 a_ = a_.left if isinstance(a_, ast.BinOp) and isinstance(a_.op, ast.Add) else a_
                 bases.append(a_.id if isinstance(a_, ast.Name) else None)
             if all(bases) and bases[0] != bases[1]:
                 pair = tuple(bases)
+    if pair is None:
+        r2.note("find_bk_vectors: the two shell lists handed to get_shell_weights were not identified as plain local lists (no lockstep claim on this tree)")
     if pair is not None:
         r2.instance(f"{fb.short}: parallel shell lists {pair}")
 
@@ -717,6 +721,13 @@ def check_axis_roles(ctx) -> None:
 from ..selftest import V  # noqa: E402
 
 SELFTEST = [
+    V("b-vectors with positive weight only kept after the completeness check (seeded C22-m5)", BK,
+      "            search_supercell=search_supercell)\n        G, neighbours = cls.find_G_and_neighbours(kpoints_red, bk_grid, mp_grid, kptirr=kptirr)\n",
+      "            search_supercell=search_supercell)\n        keep = wk > 1e-8\n        wk, bk_cart, bk_grid = wk[keep], bk_cart[keep], bk_grid[keep]\n        G, neighbours = cls.find_G_and_neighbours(kpoints_red, bk_grid, mp_grid, kptirr=kptirr)\n",
+      "fire", "R22.1"),
+    V("lattice shell list not updated with its Cartesian twin (seeded C22-m6)", BK,
+      "                    shell_list_cart.append(shell_new_cart)\n                    shell_list_latt.append(shell_new_latt)\n",
+      "                    shell_list_cart.append(shell_new_cart)\n", "fire", "R22.2"),
     V("completeness test removed for the message mode", BK,
       "        if tol > bk_complete_tol:\n            if msg_if_fail:\n                return \"incomplete shells\"\n            else:",
       "        if tol > bk_complete_tol:\n            if msg_if_fail:\n                pass\n            else:", "fire", "R22.1"),
